@@ -68,7 +68,17 @@ def check(assertions, timeout_s=60, cross=False, logic=None, tactic=None):
     for a in assertions:
         s.add(a)
     t0 = time.time()
-    r = s.check()
+    # the sequence solver does not always honour the timeout parameter: a watchdog interrupts the context
+    import threading
+    wd = threading.Timer(timeout_s + 2, lambda: s.ctx.interrupt())
+    wd.daemon = True
+    wd.start()
+    try:
+        r = s.check()
+    except z3.Z3Exception:
+        r = z3.unknown
+    finally:
+        wd.cancel()
     dt = time.time() - t0
     status = "sat" if r == z3.sat else "unsat" if r == z3.unsat else "unknown"
     res = Result(status, seconds=dt)
@@ -84,3 +94,42 @@ def check(assertions, timeout_s=60, cross=False, logic=None, tactic=None):
             res.status = "unknown"
             res.reason = "solvers disagree: z3=%s cvc5=%s" % (status, c)
     return res
+
+
+def check_status_forked(assertions, timeout_s=10):
+    """status only ('unsat' | 'sat' | 'unknown'), decided in a forked child that is killed at the deadline: for queries on which the
+    solver's own timeout is not honoured (sequence theory)"""
+    import select
+    import signal
+    r_fd, w_fd = os.pipe()
+    t0 = time.time()
+    pid = os.fork()
+    if pid == 0:
+        try:
+            os.close(r_fd)
+            s = z3.Solver()
+            s.set("timeout", int(timeout_s * 1000))
+            for a in assertions:
+                s.add(a)
+            r = s.check()
+            os.write(w_fd, (b"unsat" if r == z3.unsat else b"sat" if r == z3.sat else b"unknown"))
+        finally:
+            os._exit(0)
+    os.close(w_fd)
+    status = "unknown"
+    ready, _, _ = select.select([r_fd], [], [], timeout_s + 2)
+    if ready:
+        data = os.read(r_fd, 16).decode()
+        if data in ("unsat", "sat", "unknown"):
+            status = data
+    else:
+        try:
+            os.kill(pid, signal.SIGKILL)
+        except OSError:
+            pass
+    os.close(r_fd)
+    try:
+        os.waitpid(pid, 0)
+    except OSError:
+        pass
+    return Result(status, seconds=time.time() - t0, reason="" if status != "unknown" else "timeout")
